@@ -13,6 +13,8 @@
 (*        expression yields for the value id (decided by a local twin)      *)
 (*   [op |-> "call1", v, obs]        f(:id,,v)     remote function call     *)
 (*   [op |-> "call2", a, b, obs]     f((:pair,,a),,b)                       *)
+(*   [op |-> "call0", obs]           f(,:seven)    remote nilad (7 = id 1)  *)
+(*   [op |-> "proxy0", obs]          q::f(:seven); q()                      *)
 (*   [op |-> "proxy1",v, obs]        q::f(:id); q(v)                        *)
 (*   [op |-> "proxy2",a, b, obs]     q::f(:pair); q(a;b)                    *)
 (*   [op |-> "isundef", k, obs]      :_(d?:k) evaluated on the client       *)
@@ -43,6 +45,7 @@ Do(m, e) ==
                                ELSE IF e.obs.t = "expr" /\ e.obs.v = m.env[e.k] THEN "ok" ELSE "ExpressionSeesOtherValue">>
     [] e.op \in {"call1", "proxy1"} -> <<m, IF IsV(e.obs, e.v) THEN "ok"
                                            ELSE IF e.v = Undef THEN "UndefinedNotUndefined" ELSE "CallMismatch">>
+    [] e.op \in {"call0", "proxy0"} -> <<m, IF IsV(e.obs, 1) THEN "ok" ELSE "CallMismatch">>
     [] e.op \in {"call2", "proxy2"} -> <<m, IF e.obs.t = "pair" /\ e.obs.a = e.a /\ e.obs.b = e.b THEN "ok" ELSE "CallMismatch">>
     [] e.op = "isundef" -> IF m.env[e.k] = NotSet THEN <<[m EXCEPT !.live = FALSE], "ok">>
                            ELSE <<m, IF e.obs.t = "v" /\ e.obs.v = (IF m.env[e.k] = Undef THEN 1 ELSE 0) THEN "ok"
